@@ -432,6 +432,11 @@ def make_program(rng, arch, nfuncs=8, force_last_noreturn=False):
         g = mk(rng, "f%d" % len(funcs), "dwarf-frame")
         g.darwin_cfi = True
         funcs.append(g)
+    # the four top bits of an encoding are flags (not a function start, has an LSDA, personality index), not part of the
+    # kind: entries without unwind info carry them too (seeded change C02-a64-11 compared the whole word with 0)
+    for f in funcs:
+        if not f.dwarf and rng.chance(1, 2):
+            f.opcode |= rng.choice([0x80000000, 0x40000000, 0x30000000, 0x50000000]) if f.opcode == 0 else rng.choice([0x40000000, 0x50000000, 0x60000000])
     rng.shuffle(funcs)
     nr = [f for f in funcs if getattr(f, "noreturn", False)]
     lastnr = rng.chance(1, 2) if nr else False       # (drawn as before; the C13 stream can insist)
